@@ -98,8 +98,25 @@ def syncLine (o : SyncSt) (line : String) : SyncSt :=
   | ["end"] => o
   | _ => o.flag (.bad s!"line {line}")
 
+/-- the gossip handler stopped inside syncStore.Append while the sync loop runs ahead: whatever happens in between,
+    the Syncer ends at the target with a finished, error-free state and Head() reports the target -/
+def evalAppendRace (ins outs : List String) : Verdict :=
+  match kvNat? ins "target", kv? outs "start", kv? outs "gossip", kv? outs "head1", kv? outs "head2", kvNat? outs "head", kvNat? outs "err", kvNat? outs "finished",
+        kv? outs "stored", kvNat? outs "tail" with
+  | some target, some "ok", some gossip, some h1, some h2, some head, some err, some fin, some stored, some tail =>
+    match c03_store_ok stored head tail with
+    | some c => .prop c "appendrace"
+    | none =>
+      if gossip == "hang" || h1 == "hang" then .prop "c07_state_finished" s!"gossip={gossip} head1={h1}" else
+      if head != target then .prop "c07_reaches_target" s!"head={head} target={target}" else
+      if h2 != toString target then .prop "c19_subjective_head_is_newest" s!"Head()={h2} target={target}" else
+      if err != 0 || fin != 1 then .prop "c07_state_finished" s!"err={err} finished={fin}" else .ok "appendrace"
+  | _, some s, _, _, _, _, _, _, _, _ => .prop "c07_state_finished" s!"appendrace start={s}"
+  | _, _, _, _, _, _, _, _, _, _ => .bad "appendrace fields"
+
 /-- heads learned while a sync is running must be synced as well -/
 def evalBurst (ins outs : List String) : Verdict :=
+  if kv? ins "kind" == some "appendrace" then evalAppendRace ins outs else
   match (kv? ins "heads").bind natList?, kvNat? outs "head", kvNat? outs "err", kvNat? outs "finished", kv? outs "syncwait", kv? outs "stored", kvNat? outs "tail" with
   | some heads, some head, some err, some fin, some sw, some stored, some tail =>
     let want := heads.foldl max 0
